@@ -3,6 +3,6 @@
 EXTENDS DocGen
 MCAlphabet == {"P","DIV","H","T","t","INL","A","UL","LI","BQ","IMG","VID","EMB","TW","FIG","FIGL","DT","LT","HIN","LNK"}
 MCRoots    == {"P","DIV","H","T","UL","BQ","IMG","VID","EMB","TW","FIG","FIGL","DT","LT","LNK"}
-TblAlphabet == {"LT", "DT", "T", "t", "IMG", "INL", "A", "P"}
-TblRoots    == {"LT", "DT", "T"}
+TblAlphabet == {"LT", "DT", "T", "t", "IMG", "INL", "A", "P", "SHR", "CMT", "DIV"}
+TblRoots    == {"LT", "DT", "T", "DIV"}
 ====
